@@ -2,7 +2,58 @@
 
 CONSTANTS[group] = [(lean_name, file relative to /repo, regex with ONE group, kind)]
 """
+import re as _re
 _BF = "parquet/src/bloom_filter/mod.rs"
+_EN = "parquet/src/column/writer/encoder.rs"
+_AB = "parquet/src/arrow/arrow_writer/byte_array.rs"
+
+
+def _sh(lit):
+    """shape tie: the literal source text (whitespace-insensitive) followed by an empty capture;
+    emitted as an empty `intlist`, LOST as soon as the expression is edited"""
+    return r"\s*".join(_re.escape(t) for t in lit.split()) + r"(\s*)"
+
+
+_SHAPES = [
+    ("SHAPE_UPDATE_MIN", "parquet/src/column/writer/mod.rs", "update_stat::<T, _>(val, min, |cur| compare_greater(basic_type_info, cur, val))"),
+    ("SHAPE_UPDATE_MAX", "parquet/src/column/writer/mod.rs", "update_stat::<T, _>(val, max, |cur| compare_greater(basic_type_info, val, cur))"),
+    ("SHAPE_UPDATE_STAT", "parquet/src/column/writer/mod.rs", "if should_update(cur) { *cur = val.clone(); }"),
+    ("SHAPE_UPDATE_MIN_NAN", "parquet/src/column/writer/mod.rs", "(false, true) => {} // current min is NaN, but incoming is not: assign val to min (true, false) => *min = val.clone(),"),
+    ("SHAPE_UPDATE_MAX_NAN", "parquet/src/column/writer/mod.rs", "(false, true) => {} // current max is NaN, but incoming is not: assign val to max (true, false) => *max = val.clone(),"),
+    ("SHAPE_IS_NAN_F16", "parquet/src/column/writer/mod.rs", "let uval = ((val[1] as u16) << 8) | val[0] as u16;"),
+    ("SHAPE_NULL_PAGE", "parquet/src/column/writer/mod.rs", "(self.page_metrics.num_buffered_rows as u64) == self.page_metrics.num_page_nulls;"),
+    ("SHAPE_NOT_ASCENDING", "parquet/src/column/writer/mod.rs", "let not_ascending = compare_greater(basic_info, last_min, new_min) || compare_greater(basic_info, last_max, new_max);"),
+    ("SHAPE_NOT_DESCENDING", "parquet/src/column/writer/mod.rs", "let not_descending = compare_greater(basic_info, new_min, last_min) || compare_greater(basic_info, new_max, last_max);"),
+    ("SHAPE_BOUNDARY_ORDER", "parquet/src/column/writer/mod.rs", "(true, _) => BoundaryOrder::ASCENDING, (false, true) => BoundaryOrder::DESCENDING, (false, false) => BoundaryOrder::UNORDERED,"),
+    ("SHAPE_LAST_MIN_MAX", "parquet/src/column/writer/mod.rs", "self.last_non_null_data_page_min_max = Some((new_min.clone(), new_max.clone()));"),
+    ("SHAPE_TRUNC_FILTER", "parquet/src/column/writer/mod.rs", ".filter(|l| data.len() > *l)"),
+    ("SHAPE_TRUNC_MIN_BIN", "parquet/src/column/writer/mod.rs", "Err(_) => Some(data[..l].to_vec()), } } else { Some(data[..l].to_vec()) }"),
+    ("SHAPE_TRUNC_MAX_BIN", "parquet/src/column/writer/mod.rs", "Err(_) => increment(data[..l].to_vec()), } } else { increment(data[..l].to_vec()) }"),
+    ("SHAPE_TRUNC_EXACT", "parquet/src/column/writer/mod.rs", ".with_max_is_exact(!did_truncate_max) .with_min_is_exact(!did_truncate_min),"),
+    ("SHAPE_CAN_TRUNCATE", "parquet/src/column/writer/mod.rs", "Type::BYTE_ARRAY => true,"),
+    ("SHAPE_TRUNCATE_UTF8", "parquet/src/column/writer/mod.rs", "let split = (1..=length).rfind(|x| data.is_char_boundary(*x))?; Some(data.as_bytes()[..split].to_vec())"),
+    ("SHAPE_TRUNC_INC_UTF8", "parquet/src/column/writer/mod.rs", "let split = (lower_bound..=length).rfind(|x| data.is_char_boundary(*x))?; increment_utf8(data.get(..split)?)"),
+    ("SHAPE_INC_UTF8", "parquet/src/column/writer/mod.rs", "if let Some(next_char) = char::from_u32(original_char as u32 + 1) { // do not allow increasing byte width of incremented char if next_char.len_utf8() == original_len {"),
+    ("SHAPE_INCREMENT", "parquet/src/column/writer/mod.rs", "let (incremented, overflow) = byte.overflowing_add(1); *byte = incremented; if !overflow { return Some(data); }"),
+    ("SHAPE_DEC_EMPTY", "parquet/src/column/writer/mod.rs", "if a_length == 0 || b_length == 0 { return a_length > 0; }"),
+    ("SHAPE_DEC_SHORT", "parquet/src/column/writer/mod.rs", "|| (a_length == b_length && first_a != first_b) { return (first_a as i8) > (first_b as i8); }"),
+    ("SHAPE_DEC_NOT_EQUAL", "parquet/src/column/writer/mod.rs", "return if negative_values { !a_longer } else { a_longer };"),
+    ("SHAPE_DEC_TAILS", "parquet/src/column/writer/mod.rs", "return if a_length > b_length { a[a_length - b_length..] > *b } else { *a > b[b_length - a_length..] };"),
+    ("SHAPE_DEC_EQUAL", "parquet/src/column/writer/mod.rs", "(a[1..]) > (b[1..])"),
+    ("SHAPE_GET_MIN_MAX", _EN, "if compare_greater(basic_type_info, min, val) { min = val; } else if compare_greater(basic_type_info, val, max) { max = val; }"),
+    ("SHAPE_GET_MIN_MAX_NAN", _EN, "(true, false) => { min = val; max = val; min_max_nan = false; }"),
+    ("SHAPE_BLOOM_INSERT_ALL", _EN, "for value in slice { bloom_filter.insert(value); }"),
+    ("SHAPE_ARROW_MIN", _AB, "if encoder.min_value.as_ref().is_none_or(|m| m.data() > min) {"),
+    ("SHAPE_ARROW_MAX", _AB, "if encoder.max_value.as_ref().is_none_or(|m| m.data() < max) {"),
+    ("SHAPE_ARROW_MIN_MAX", _AB, "min = min.min(val); max = max.max(val);"),
+    ("SHAPE_MASK_BIT", _BF, "result[i] = 1 << y;"),
+    ("SHAPE_BLOCK_INSERT", _BF, "self[i] |= mask[i];"),
+    ("SHAPE_BLOCK_CHECK", _BF, "if self[i] & mask[i] == 0 { return false; }"),
+    ("SHAPE_SBBF_INSERT", _BF, "let block_index = self.hash_to_block_index(hash); self.0[block_index].insert(hash as u32)"),
+    ("SHAPE_SBBF_CHECK", _BF, "let block_index = self.hash_to_block_index(hash); self.0[block_index].check(hash as u32)"),
+    ("SHAPE_FOLD", _BF, "let new_len = len / group_size; for i in 0..new_len { let start = i * group_size; let mut merged = self.0[start]; for j in 1..group_size { merged |= self.0[start + j]; } self.0[i] = merged; } self.0.truncate(new_len);"),
+    ("SHAPE_BITOR_ASSIGN", _BF, "fn bitor_assign(&mut self, rhs: Self) { for i in 0..8 { self.0[i] |= rhs.0[i]; } }"),
+]
 _CW = "parquet/src/column/writer/mod.rs"
 CONSTANTS = {
     "C07": [
@@ -24,6 +75,6 @@ CONSTANTS = {
         # sign bit / sign extension byte of compare_greater_byte_array_decimals
         ("DEC_SIGN_MASK", _CW, r"if \((0x[0-9A-Fa-f]+) & first_a\) != \(0x[0-9A-Fa-f]+ & first_b\)", "int"),
         ("DEC_NEG_EXT", _CW, r"let extension: u8 = if \(first_a as i8\) < 0 \{ (0x[0-9A-Fa-f]+) \} else \{ 0 \};", "int"),
-    ],
+    ] + [(n, f, _sh(lit), "intlist") for (n, f, lit) in _SHAPES],
 }
 FUNCTIONS = {}
